@@ -192,6 +192,18 @@ Lemma allocate_sops_app : forall c p s a,
   allocate_sops c (p ++ s) a = bind (allocate_sops c s a) (allocate_sops c p).
 Proof. intros c p s a. unfold allocate_sops. rewrite rev_app_distr. apply fold_res_app. Qed.
 
+Lemma zip4_cover_d : forall d a b c y, In y d ->
+  (length d <= length a)%nat -> (length d <= length b)%nat -> (length d <= length c)%nat ->
+  exists g, In g (zip4 a b c d) /\ In y g.
+Proof.
+  induction d as [|x d IH]; intros a b c y Hy La Lb Lc; [destruct Hy|].
+  destruct a as [|xa a]; [simpl in La; lia|]. destruct b as [|xb b]; [simpl in Lb; lia|].
+  destruct c as [|xc c]; [simpl in Lc; lia|]. simpl in *.
+  destruct Hy as [Hy|Hy].
+  - subst y. exists [xa; xb; xc; x]. split; [left; reflexivity | simpl; tauto].
+  - destruct (IH a b c y Hy) as [g [Hg Hyg]]; try lia. exists g. split; [right; exact Hg | exact Hyg].
+Qed.
+
 Lemma zip4_cover_c : forall c a b d y, In y c ->
   (length c <= length a)%nat -> (length c <= length b)%nat -> (length c <= length d)%nat ->
   exists g, In g (zip4 a b c d) /\ In y g.
@@ -553,6 +565,17 @@ Section OneLoop.
     destruct (zip4_cover_a cb (f_iters f) (f_yield f) (f_res f) b Hbin) as [g [Hg Hbg]]; try lia.
     apply (gv_in g b); [unfold groups; rewrite Hb; exact Hg | exact Hbg].
   Qed.
+  Lemma res_in_gv : forall d, In d (f_res f) -> In d gv.
+  Proof.
+    intros d Hdr. destruct Hlen as [L1 [L2 L3]].
+    destruct (zip4_cover_d (f_res f) cb (f_iters f) (f_yield f) d Hdr) as [g [Hg Hdg]]; try lia.
+    apply (gv_in g d); [unfold groups; rewrite Hb; exact Hg | exact Hdg].
+  Qed.
+  Lemma defs_Y : forall d, In d (defs Y_) -> In d gv.
+  Proof.
+    intros d Hd. unfold defs, sop_results, Yop in Hd. simpl in Hd. apply in_map_iff in Hd.
+    destruct Hd as [[y r_] [E Hin]]. simpl in E. subst r_. exact (res_in_gv d (in_combine_r _ _ _ _ Hin)).
+  Qed.
   Lemma defs_H : forall d, In d (defs H_) <-> d = iv \/ In d cb.
   Proof.
     intros d. unfold defs, sop_results, Hop. simpl. rewrite Hb. simpl. split.
@@ -769,6 +792,8 @@ Section OneLoop.
           exists g, In g gs /\ In w1 g /\ In w2 g)
     /\ (forall w r, In w gv -> ty a6 w = Some r -> ty a6 iv <> Some r)
     /\ (exists riv, ty a6 iv = Some riv)
+    /\ (forall v, In v gv -> exists r, ty a6 v = Some r)
+    /\ (forall g, In g gs -> exists R, forall u, In u g -> ty a6 u = Some R)
     /\ allocate_sops c (f_body f) a6 = Ok a7
     /\ mono a7 ah
     /\ Inv0 (live (H_ :: R_)) Enone (ment (H_ :: R_)) ah
@@ -855,7 +880,7 @@ Section OneLoop.
     exists ap, a6, a7, ah. unfold loop_states_prop.
     split; [exact Epost|]. split; [exact HIstart|]. split; [exact Hallstart|]. split; [exact Hmp6|].
     split; [exact HI6'|]. split; [exact Hall6'|]. split; [exact DG|]. split; [exact IVF|].
-    split; [exists riv; exact Hiv6|]. split; [exact E7|]. split; [exact Hm7h|]. split; [exact HIh|].
+    split; [exists riv; exact Hiv6|]. split; [exact Hgvty6|]. split; [intros g Hg; destruct (Hgreg6 g Hg) as [R [HR _]]; exists R; exact HR|]. split; [exact E7|]. split; [exact Hm7h|]. split; [exact HIh|].
     split; [exact Hallh | exact Epre].
   Qed.
 
@@ -869,7 +894,7 @@ Section OneLoop.
   Proof.
     intros a0 af Hsok0 Hty0 Hrun.
     destruct (loop_states a0 af Hsok0 Hty0 Hrun) as [ap [a6 [a7 [ah St]]]].
-    destruct St as [Epost [HIstart [Hallstart [Hmp6 [HI6' [Hall6' [DG [IVF [[riv Hiv6] [E7 [Hm7h [HIh [Hallh Epre]]]]]]]]]]]]].
+    destruct St as [Epost [HIstart [Hallstart [Hmp6 [HI6' [Hall6' [DG [IVF [[riv Hiv6] [Hgvty6 [GT [E7 [Hm7h [HIh [Hallh Epre]]]]]]]]]]]]]]].
     assert (Hpostwalk : forall pp ps aps, post = pp ++ ps -> allocate_sops c ps a0 = Ok aps ->
               Inv0 (live ps) Enone (ment ps) aps /\ (forall v, live ps v -> exists r, ty aps v = Some r) /\ mono a0 aps).
     { intros pp ps aps Hp Hr.
@@ -971,7 +996,7 @@ Section OneLoop.
   Proof.
     intros a0 af Hsok0 Hty0 Hrun.
     destruct (loop_states a0 af Hsok0 Hty0 Hrun) as [ap [a6 [a7 [ah St]]]].
-    destruct St as [Epost [HIstart [Hallstart [Hmp6 [HI6' [Hall6' [DG [IVF [[riv Hiv6] [E7 [Hm7h [HIh [Hallh Epre]]]]]]]]]]]]].
+    destruct St as [Epost [HIstart [Hallstart [Hmp6 [HI6' [Hall6' [DG [IVF [[riv Hiv6] [Hgvty6 [GT [E7 [Hm7h [HIh [Hallh Epre]]]]]]]]]]]]]]].
     assert (Hl7 : V = (pre ++ [H_]) ++ f_body f ++ Y_ :: post).
     { unfold virt. repeat rewrite <- app_assoc; simpl; reflexivity. }
     destruct (walk_from c (t0' a6) (FR' a6) (FR'_pre a6) V Hwf Hio Hnz (FR'_tie a6) (f_body f) (Y_ :: post) _ a6 a7 Hl7 HI6' Hall6' E7)
@@ -1051,6 +1076,152 @@ Section OneLoop.
       destruct (HG2 iv v r HLiv Hv (fun Hc => Hne (eq_sym Hc)) (Hm67 iv r Hiv6) Hrv) as [HP|[Hz|[]]]; [|exact Hz].
       exfalso. destruct HP as [w Hw]. unfold t0', rebased, t00 in Hw. destruct (memN w gv) eqn:Em; [|discriminate].
       apply memN_In in Em. exact (IVF w r Em Hw Hiv6).
+  Qed.
+
+  (* the same for EVERY operation of the virtual block, the pseudo-operations H (defines the induction
+     variable and the carried block arguments) and Y (defines the results) included *)
+  Theorem loop_def_all : forall a0 af,
+    sok c t00 a0 -> (forall v, ty a0 v = None) ->
+    allocate_block c (map Simple pre ++ For f :: map Simple post) a0 = Ok af ->
+    forall p o s, V = p ++ o :: s -> forall d v r, In d (defs o) -> live s v -> d <> v ->
+      ty af d = Some r -> ty af v = Some r -> zero_rule c = true /\ r = 0.
+  Proof.
+    intros a0 af Hsok0 Hty0 Hrun p o s Hsp d v r Hd Hv Hne H1 H2.
+    destruct (loop_no_clobber a0 af Hsok0 Hty0 Hrun) as [Hops Hivc].
+    destruct (loop_states a0 af Hsok0 Hty0 Hrun) as [ap [a6 [a7 [ah St]]]].
+    destruct St as [Epost [HIstart [Hallstart [Hmp6 [HI6' [Hall6' [DG [IVF [[riv Hiv6] [Hgvty6 [GT [E7 [Hm7h [HIh [Hallh Epre]]]]]]]]]]]]]]].
+    assert (Hl7 : V = (pre ++ [H_]) ++ f_body f ++ Y_ :: post).
+    { unfold virt. repeat rewrite <- app_assoc; simpl; reflexivity. }
+    destruct (walk_from c (t0' a6) (FR' a6) (FR'_pre a6) V Hwf Hio Hnz (FR'_tie a6) (f_body f) (Y_ :: post) _ a6 a7 Hl7 HI6' Hall6' E7)
+      as [HI7 [Hall7 Hm67]].
+    assert (Hlf : V = [] ++ pre ++ H_ :: R_) by reflexivity.
+    destruct (walk_from c t00 FR00 FR00_pre V Hwf Hio Hnz FR00_tie pre (H_ :: R_) [] ah af Hlf HIh Hallh Epre) as [_ [_ Hmhf]].
+    assert (Hm7f : mono a7 af). { intros w q Hq. apply Hmhf. apply Hm7h. exact Hq. }
+    assert (Hm6f : mono a6 af). { intros w q Hq. apply Hm7f. apply Hm67. exact Hq. }
+    (* a group member d and a value v (a group member, or live at a point where the invariant holds)
+       in one register are tie-connected *)
+    assert (Hconn : forall (Lp : value -> Prop) ax, Inv c (t0' a6) (FR' a6) Lp Enone (fun _ => True) ax -> mono ax af ->
+              (forall u, Lp u -> exists q, ty ax u = Some q) ->
+              In d gv -> (In v gv \/ Lp v) -> tconn pre f post d v).
+    { intros Lp ax HIx Hmx Halx Hdg Hvc.
+      destruct (Hgvty6 d Hdg) as [rd Hrd]. pose proof (Hm6f d rd Hrd) as X. rewrite H1 in X. inversion X; subst rd.
+      destruct Hvc as [Hvg|HvL].
+      - destruct (Hgvty6 v Hvg) as [rv Hrv]. pose proof (Hm6f v rv Hrv) as X2. rewrite H2 in X2. inversion X2; subst rv.
+        destruct (DG d v r Hdg Hvg Hrd Hrv) as [g [Hg [Hg1 Hg2]]]. exact (group_conn g d v Hg Hg1 Hg2).
+      - destruct (Halx v HvL) as [rv Hrv]. pose proof (Hmx v rv Hrv) as X2. rewrite H2 in X2. inversion X2; subst rv.
+        destruct HIx as [_ [_ [_ [_ H5x]]]].
+        assert (HP : Pset (t0' a6) r).
+        { exists d. unfold t0', rebased. assert (Em : memN d gv = true) by (apply memN_In; exact Hdg). rewrite Em. exact Hrd. }
+        destruct (H5x v r HvL Hrv HP) as [w [Hw [Hrw Cw]]].
+        destruct (DG d w r Hdg Hw Hrd Hrw) as [g [Hg [Hg1 Hg2]]].
+        exact (tconn_trans _ _ _ d w v (group_conn g d w Hg Hg1 Hg2) Cw). }
+    destruct (virt_split p (o :: s) Hsp) as [[ps' [Ep Es]]|[[bp [bs [Eb [Ep Es]]]]|[pp [Ep Ep2]]]].
+    - destruct ps' as [|o' l2]; simpl in Es; inversion Es; subst.
+      + (* the loop header *)
+        apply defs_H in Hd. destruct Hd as [Hd|Hd].
+        * subst d. exact (Hivc v r Hv (fun Hc => Hne (eq_sym Hc)) H1 H2).
+        * exfalso. apply (Htie_ok_def p H_ R_ Hsp d v); [apply defs_H; right; exact Hd | exact Hv | exact Hne|].
+          apply (Hconn (live R_) a7); [|exact Hm7f | exact Hall7 | exact (cb_in_gv d Hd) | right; exact Hv].
+          eapply Inv_weaken; [exact HI7 | intros u Hu; exact Hu | intros u _; exact I].
+      + exact (Hops p o' l2 _ (or_introl (conj Ep eq_refl)) d v r Hd Hv Hne H1 H2).
+    - destruct bs as [|o' l2]; simpl in Es; inversion Es; subst.
+      + (* the back edge / loop exit: the results *)
+        exfalso.
+        assert (Hdg : In d gv) by exact (defs_Y d Hd).
+        apply (Htie_ok_def _ Y_ post Hsp d v Hd Hv Hne).
+        destruct (in_dec Nat.eq_dec v (defs Y_)) as [HvY|HvY].
+        * assert (Hvg : In v gv) by exact (defs_Y v HvY).
+          apply (Hconn (live (Y_ :: post)) a6); [|exact Hm6f | exact Hall6' | exact Hdg | left; exact Hvg].
+          eapply Inv_weaken; [exact HI6' | intros u Hu; exact Hu | intros u _; exact I].
+        * apply (Hconn (live (Y_ :: post)) a6); [|exact Hm6f | exact Hall6' | exact Hdg|].
+          -- eapply Inv_weaken; [exact HI6' | intros u Hu; exact Hu | intros u _; exact I].
+          -- right. destruct Hv as [Hu Hnd]. split; [apply used_in_cons; right; exact Hu|].
+             intro Hc. apply defined_in_cons in Hc. destruct Hc as [Hc|Hc]; [exact (HvY Hc) | exact (Hnd Hc)].
+      + exact (Hops bp o' l2 _ (or_intror (or_introl (conj Eb eq_refl))) d v r Hd Hv Hne H1 H2).
+    - exact (Hops pp o s _ (or_intror (or_intror (conj Ep eq_refl))) d v r Hd Hv Hne H1 H2).
+  Qed.
+
+  Theorem loop_defs_allocated : forall a0 af,
+    sok c t00 a0 -> (forall v, ty a0 v = None) ->
+    allocate_block c (map Simple pre ++ For f :: map Simple post) a0 = Ok af ->
+    (forall p o s, V = p ++ o :: s -> forall d, In d (defs o) -> exists r, ty af d = Some r)
+    /\ (forall v, zero_rule c = true -> ty af v = Some 0 -> In v (zconsts c)).
+  Proof.
+    intros a0 af Hsok0 Hty0 Hrun.
+    destruct (loop_states a0 af Hsok0 Hty0 Hrun) as [ap [a6 [a7 [ah St]]]].
+    destruct St as [Epost [HIstart [Hallstart [Hmp6 [HI6' [Hall6' [DG [IVF [[riv Hiv6] [Hgvty6 [GT [E7 [Hm7h [HIh [Hallh Epre]]]]]]]]]]]]]]].
+    assert (Hl7 : V = (pre ++ [H_]) ++ f_body f ++ Y_ :: post).
+    { unfold virt. repeat rewrite <- app_assoc; simpl; reflexivity. }
+    destruct (walk_from c (t0' a6) (FR' a6) (FR'_pre a6) V Hwf Hio Hnz (FR'_tie a6) (f_body f) (Y_ :: post) _ a6 a7 Hl7 HI6' Hall6' E7)
+      as [HI7 [Hall7 Hm67]].
+    assert (Hlf : V = [] ++ pre ++ H_ :: R_) by reflexivity.
+    destruct (walk_from c t00 FR00 FR00_pre V Hwf Hio Hnz FR00_tie pre (H_ :: R_) [] ah af Hlf HIh Hallh Epre) as [[Hsf _] [_ Hmhf]].
+    assert (Hm7f : mono a7 af). { intros w q Hq. apply Hmhf. apply Hm7h. exact Hq. }
+    assert (Hm6f : mono a6 af). { intros w q Hq. apply Hm7f. apply Hm67. exact Hq. }
+    split; [|intros v Hz Hr; exact (so_zero_ty c t00 af Hsf v Hz Hr)].
+    intros p o s Hsp d Hd.
+    assert (Hgv : In d gv -> exists r, ty af d = Some r).
+    { intros Hg. destruct (Hgvty6 d Hg) as [r Hr]. exists r. apply Hm6f. exact Hr. }
+    destruct (virt_split p (o :: s) Hsp) as [[ps' [Ep Es]]|[[bp [bs [Eb [Ep Es]]]]|[pp [Ep Ep2]]]].
+    - destruct ps' as [|o' l2]; simpl in Es; inversion Es; subst.
+      + apply defs_H in Hd. destruct Hd as [Hd|Hd]; [subst d; exists riv; apply Hm6f; exact Hiv6 | exact (Hgv (cb_in_gv d Hd))].
+      + rewrite Ep in Epre. rewrite allocate_sops_app in Epre.
+        destruct (allocate_sops c (o' :: l2) ah) as [ao|e] eqn:Eo; simpl in Epre; [|discriminate].
+        assert (Hl : V = p ++ (o' :: l2) ++ H_ :: R_).
+        { unfold virt. rewrite Ep. repeat rewrite <- app_assoc; simpl; reflexivity. }
+        destruct (walk_head c t00 FR00 FR00_pre V Hwf Hio Hnz FR00_tie o' l2 (H_ :: R_) p ah ao Hl HIh Hallh Eo) as [Hdal _].
+        destruct (walk_from c t00 FR00 FR00_pre V Hwf Hio Hnz FR00_tie (o' :: l2) (H_ :: R_) p ah ao Hl HIh Hallh Eo) as [HIo [Halo _]].
+        assert (Hl' : V = [] ++ p ++ (o' :: l2) ++ H_ :: R_) by exact Hl.
+        destruct (walk_from c t00 FR00 FR00_pre V Hwf Hio Hnz FR00_tie p ((o' :: l2) ++ H_ :: R_) [] ao af Hl' HIo Halo Epre) as [_ [_ Hmf]].
+        destruct (Hdal d Hd) as [r Hr]. exists r. apply Hmf. exact Hr.
+    - destruct bs as [|o' l2]; simpl in Es; inversion Es; subst.
+      + exact (Hgv (defs_Y d Hd)).
+      + rewrite Eb in E7. rewrite allocate_sops_app in E7.
+        destruct (allocate_sops c (o' :: l2) a6) as [ao|e] eqn:Eo; simpl in E7; [|discriminate].
+        assert (Hl : V = (pre ++ H_ :: bp) ++ (o' :: l2) ++ Y_ :: post).
+        { unfold virt. rewrite Eb. repeat rewrite <- app_assoc; simpl; repeat rewrite <- app_assoc; simpl; reflexivity. }
+        destruct (walk_head c (t0' a6) (FR' a6) (FR'_pre a6) V Hwf Hio Hnz (FR'_tie a6) o' l2 (Y_ :: post) _ a6 ao Hl HI6' Hall6' Eo) as [Hdal _].
+        destruct (walk_from c (t0' a6) (FR' a6) (FR'_pre a6) V Hwf Hio Hnz (FR'_tie a6) (o' :: l2) (Y_ :: post) _ a6 ao Hl HI6' Hall6' Eo)
+          as [HIo [Halo _]].
+        assert (Hl' : V = (pre ++ [H_]) ++ bp ++ (o' :: l2) ++ Y_ :: post).
+        { unfold virt. rewrite Eb. repeat rewrite <- app_assoc; simpl; repeat rewrite <- app_assoc; simpl; reflexivity. }
+        destruct (walk_from c (t0' a6) (FR' a6) (FR'_pre a6) V Hwf Hio Hnz (FR'_tie a6) bp ((o' :: l2) ++ Y_ :: post) _ ao a7 Hl' HIo Halo E7)
+          as [_ [_ Hmo7]].
+        destruct (Hdal d Hd) as [r Hr]. exists r. apply Hm7f. apply Hmo7. exact Hr.
+    - rewrite Ep in Epost. rewrite allocate_sops_app in Epost.
+      destruct (allocate_sops c (o :: s) a0) as [ao|e] eqn:Eo; simpl in Epost; [|discriminate].
+      assert (Hl : V = ((pre ++ H_ :: f_body f ++ [Y_]) ++ pp) ++ (o :: s) ++ []).
+      { rewrite app_nil_r. unfold virt. rewrite Ep. repeat rewrite <- app_assoc; simpl; repeat rewrite <- app_assoc; simpl; reflexivity. }
+      destruct (walk_head c t00 FR00 FR00_pre V Hwf Hio Hnz FR00_tie o s [] _ a0 ao Hl HIstart Hallstart Eo) as [Hdal _].
+      destruct (walk_from c t00 FR00 FR00_pre V Hwf Hio Hnz FR00_tie (o :: s) [] _ a0 ao Hl HIstart Hallstart Eo) as [HIo [Halo _]].
+      assert (Hl' : V = (pre ++ H_ :: f_body f ++ [Y_]) ++ pp ++ (o :: s) ++ []).
+      { rewrite app_nil_r. unfold virt. rewrite Ep. repeat rewrite <- app_assoc; simpl; repeat rewrite <- app_assoc; simpl; reflexivity. }
+      destruct (walk_from c t00 FR00 FR00_pre V Hwf Hio Hnz FR00_tie pp ((o :: s) ++ []) _ ao ap Hl' HIo Halo Epost) as [_ [_ Hmop]].
+      destruct (Hdal d Hd) as [r Hr]. exists r. apply Hm6f. apply Hmp6. apply Hmop. exact Hr.
+  Qed.
+
+  (* registers of the loop-carried groups and of the induction variable in the final assignment *)
+  Theorem loop_reg_facts : forall a0 af,
+    sok c t00 a0 -> (forall v, ty a0 v = None) ->
+    allocate_block c (map Simple pre ++ For f :: map Simple post) a0 = Ok af ->
+    (forall g, In g gs -> exists R, forall u, In u g -> ty af u = Some R)
+    /\ (exists riv, ty af iv = Some riv /\ forall w r, In w gv -> ty af w = Some r -> r <> riv).
+  Proof.
+    intros a0 af Hsok0 Hty0 Hrun.
+    destruct (loop_states a0 af Hsok0 Hty0 Hrun) as [ap [a6 [a7 [ah St]]]].
+    destruct St as [Epost [HIstart [Hallstart [Hmp6 [HI6' [Hall6' [DG [IVF [[riv Hiv6] [Hgvty6 [GT [E7 [Hm7h [HIh [Hallh Epre]]]]]]]]]]]]]]].
+    assert (Hl7 : V = (pre ++ [H_]) ++ f_body f ++ Y_ :: post).
+    { unfold virt. repeat rewrite <- app_assoc; simpl; reflexivity. }
+    destruct (walk_from c (t0' a6) (FR' a6) (FR'_pre a6) V Hwf Hio Hnz (FR'_tie a6) (f_body f) (Y_ :: post) _ a6 a7 Hl7 HI6' Hall6' E7)
+      as [_ [_ Hm67]].
+    assert (Hlf : V = [] ++ pre ++ H_ :: R_) by reflexivity.
+    destruct (walk_from c t00 FR00 FR00_pre V Hwf Hio Hnz FR00_tie pre (H_ :: R_) [] ah af Hlf HIh Hallh Epre) as [_ [_ Hmhf]].
+    assert (Hm6f : mono a6 af). { intros w q Hq. apply Hmhf. apply Hm7h. apply Hm67. exact Hq. }
+    split.
+    - intros g Hg. destruct (GT g Hg) as [R HR]. exists R. intros u Hu. apply Hm6f. exact (HR u Hu).
+    - exists riv. split; [apply Hm6f; exact Hiv6|]. intros w r Hw Hr Heq. subst r.
+      destruct (Hgvty6 w Hw) as [r6 Hr6]. pose proof (Hm6f w r6 Hr6) as X. rewrite Hr in X. inversion X; subst r6.
+      exact (IVF w riv Hw Hr6 Hiv6).
   Qed.
 End OneLoop.
 
@@ -1161,4 +1332,45 @@ Proof.
   destruct (init_sok00 zr pool allow fn Hz Hpool Hnone) as [Hsok Hty].
   unfold allocate_func in Hrun. simpl in Hrun.
   exact (loop_no_clobber c pre post f iv cb Hb Hwf Hio Hnz Hlen Hgs Hscope Hiv Hli Hbnd Htie Htied _ af Hsok Hty Hrun).
+Qed.
+
+(* ---- the live-ins computed by _live_ins_per_block cover every outer value the body reads: the
+   liveness of the virtual block (where Y reads the live-ins) is the true liveness of the loop ---- *)
+Lemma oset_update_keep : forall vs s v, In v s -> In v (oset_update s vs).
+Proof.
+  induction vs as [|x t IH]; intros s v H; simpl; [exact H|]. unfold oset_update in *. simpl.
+  apply IH. destruct (memN x s); [exact H | apply in_or_app; left; exact H].
+Qed.
+Lemma oset_update_in : forall vs s v, In v vs -> In v (oset_update s vs).
+Proof.
+  induction vs as [|x t IH]; intros s v H; [destruct H|]. unfold oset_update in *. simpl.
+  destruct H as [H|H].
+  - subst x. apply (oset_update_keep t). destruct (memN v s) eqn:E; [apply memN_In; exact E | apply in_or_app; right; left; reflexivity].
+  - apply IH. exact H.
+Qed.
+Lemma oset_diff_in : forall s vs v, In v s -> ~ In v vs -> In v (oset_diff s vs).
+Proof.
+  intros s vs v H Hn. unfold oset_diff. apply filter_In. split; [exact H|].
+  destruct (memN v vs) eqn:E; [apply memN_In in E; contradiction | reflexivity].
+Qed.
+
+Lemma live_ins_complete : forall f v,
+  (used_in (f_body f) v \/ In v (f_yield f)) -> ~ defined_in (f_body f) v -> ~ In v (f_bargs f) ->
+  In v (live_ins_body f).
+Proof.
+  intros f v Hu Hnd Hnb. unfold live_ins_body. apply oset_diff_in; [|exact Hnb].
+  set (step := fun s o => oset_update (oset_diff s (sop_results o)) (sop_operands o)).
+  assert (Hgen : forall bs, (used_in bs v \/ In v (f_yield f)) -> ~ defined_in bs v ->
+            In v (fold_left step (rev bs) (oset_update [] (f_yield f)))).
+  { induction bs as [|o bs IH]; intros Hu' Hnd'.
+    - simpl. destruct Hu' as [[o [[] _]]|Hy]. apply oset_update_in. exact Hy.
+    - simpl. rewrite fold_left_app. simpl. unfold step at 1.
+      assert (Hndo : ~ In v (sop_results o)) by (intro Hc; apply Hnd'; apply defined_in_cons; left; exact Hc).
+      assert (Hndb : ~ defined_in bs v) by (intro Hc; apply Hnd'; apply defined_in_cons; right; exact Hc).
+      destruct Hu' as [Hu'|Hy].
+      + apply used_in_cons in Hu'. destruct Hu' as [Ho|Hb].
+        * apply oset_update_in. exact Ho.
+        * apply oset_update_keep. apply oset_diff_in; [exact (IH (or_introl Hb) Hndb) | exact Hndo].
+      + apply oset_update_keep. apply oset_diff_in; [exact (IH (or_intror Hy) Hndb) | exact Hndo]. }
+  exact (Hgen (f_body f) Hu Hnd).
 Qed.
